@@ -1,7 +1,7 @@
 (* C03 — results do not depend on the execution strategy.  Statements only. *)
 From Coq Require Import List ZArith Bool Lia Sorting.Permutation.
 From GL Require Import Lib.Arr Lib.Keyed Lib.Blocks Lib.ParMap Model.Dom Model.Scalar Model.Reduce Model.GroupByApi
-  Spec.Defs Spec.Exec Proofs.ReduceMerge Proofs.ReduceBlocks Proofs.ReduceWrap Proofs.ChunkedKeys.
+  Spec.Defs Spec.Exec Proofs.ReduceMerge Proofs.ReduceBlocks Proofs.ReduceWrap Proofs.ChunkedKeys Proofs.GenTie Gen.TablesGen.
 Import ListNotations.
 Open Scope Z_scope.
 
@@ -62,6 +62,11 @@ Theorem C03_chunked_keys_int nullable nullv r ng chunks : api_value_reducer r ->
   = chunk_cells (zops nullable nullv) r ng (concat (map (fun ch => unify_rows (fst ch) (snd ch)) chunks)).
 Proof. exact (chunked_model_equal_whole _ (zops_laws nullable nullv) r ng chunks). Qed.
 Print Assumptions C03_chunked_keys_int.
+
+(* Tie B: the reducer core.py merges the key-chunk results of sums / counts with is the plain sum, on this run *)
+Theorem C03_chunk_merge_dispatch_is_the_source's : Gen.TablesGen.gen_core_merge_sums = core_merge_sums.
+Proof. exact tie_core_merge_sums. Qed.
+Print Assumptions C03_chunk_merge_dispatch_is_the_source's.
 
 (* 3. Order in which parallel tasks finish: results are stored at their submission index,
       so every completion order yields map f args *)
